@@ -50,7 +50,13 @@ class C14(core.Prop):
                    "a condition-variable wait with a positive timeout may time out at any moment while not notified (superset of timed behaviour)"]
 
     def strategy(self, tier):
-        return syncgen.programs(kinds=("mutex", "sem", "cond", "barrier", "mailbox"), max_actors=5, max_ops=12, mc=True)
+        from hypothesis import strategies as st
+        general = syncgen.programs(kinds=("mutex", "sem", "cond", "cond-any-mutex", "barrier", "mailbox", "tick"), max_actors=5,
+                                   max_ops=12, mc=True)
+        # a class aimed at condition variables: one condition variable, two mutexes, every waiter may bring its own mutex
+        condvars = syncgen.programs(kinds=("mutex", "cond", "cond-any-mutex", "tick"), max_actors=4, min_actors=3, max_ops=8, mc=True,
+                                    max_mutex=2, max_cond=1)
+        return st.one_of(general, general, condvars)
 
     def check(self, case):
         oc = core.Outcome()
